@@ -1003,6 +1003,23 @@ func (f *Focus) DrawBlock(v *View) []txgen.Tx {
 		}
 		out = append(out, txs...)
 	}
+	// a transaction the node refuses before executing it (a transfer signed by somebody else's key), in 1 of 5
+	// blocks, mostly as the block's last transaction: whatever a refusal leaves behind meets the block-end hooks
+	if f.rng(0, 4, "refused") == 0 {
+		u := f.W.G.U.Users
+		a, b := u[f.rng(0, len(u)-1, "ref-from")], u[f.rng(0, len(u)-1, "ref-signer")]
+		if !a.Addr.Equal(b.Addr) {
+			tx := txgen.Send(b, a.Addr, b.Addr, txgen.Amt("OLT", big.NewInt(int64(f.rng(1, 1000, "ref-amt")))), f.W.Fee, f.W.Memo())
+			tx.Tags = []string{"refused-by-validate"}
+			if at := f.rng(0, 3, "ref-at"); at == 0 && len(out) > 0 {
+				k := f.rng(0, len(out)-1, "ref-pos")
+				out = append(out[:k:k], append([]txgen.Tx{tx}, out[k:]...)...)
+			} else {
+				out = append(out, tx)
+			}
+			f.Feat["refused-transaction-in-block"]++
+		}
+	}
 	return out
 }
 
